@@ -61,7 +61,14 @@ pub struct Config {
     /// Map lanes: the lane makes spontaneous clear / take / drop changes (they hit every key, so the
     /// final-state oracle of the socket side is not applicable to such a case).
     pub lane_bulk: bool,
+    /// The runtime's `empty_timeout` in (virtual) milliseconds. `LONG_TIMEOUT_MS` in the parts whose
+    /// scripts never let that much virtual time pass.
+    pub timeout_ms: u64,
+    /// The script may contain lane-side faults and virtual-time steps (parts `faults-*`).
+    pub faults: bool,
 }
+
+pub const LONG_TIMEOUT_MS: u64 = 5000;
 
 #[derive(Clone, Debug)]
 pub enum Step {
@@ -85,6 +92,14 @@ pub enum Step {
     LaneUnstallRead,
     /// Number of frames the lane may still emit (`None` = unlimited).
     LaneBudget(Option<u32>),
+    /// Fault: the lane drops its reader of the runtime's output and keeps its writer open (the
+    /// runtime's write half fails from now on, its read half stays healthy).
+    LaneDropReader,
+    /// Fault: the lane closes its writer and keeps reading the runtime's output.
+    LaneCloseWriter,
+    /// Let that many milliseconds of virtual time pass (paused clock: every timer of the runtime that
+    /// falls due fires, in order, with the runtime running to idleness in between).
+    Advance(u64),
     Yield(u32),
     Settle,
 }
@@ -196,7 +211,113 @@ impl<'a> Gen<'a> {
             clearer: if kind == LaneKind::Map && rng.bool() { Some(rng.usize_below(n)) } else { None },
             lane_bulk: kind == LaneKind::Map && rng.chance(1, 4),
             consumers,
+            timeout_ms: LONG_TIMEOUT_MS,
+            faults: false,
         }
+    }
+
+    /// Configuration of the `faults-*` parts: a finite `empty_timeout`, at least two consumers most of
+    /// the time, and more often than not a socket too small for one request frame (so that a write to
+    /// a lane that is not reading stays pending).
+    pub fn fault_config(&mut self, kind: LaneKind) -> Config {
+        let mut cfg = self.config(kind);
+        let rng = &mut *self.rng;
+        cfg.faults = true;
+        cfg.timeout_ms = *rng.pick(&[20, 60, 300]);
+        if rng.chance(1, 2) {
+            cfg.cap_sock_out = *rng.pick(&CAPS[..4]);
+        }
+        if cfg.consumers.len() == 1 {
+            let again = cfg.consumers[0].clone();
+            cfg.consumers.push(ConsCfg { sync: rng.bool(), keep: rng.bool(), ..again });
+        }
+        cfg
+    }
+
+    fn advance(&mut self, cfg: &Config) -> Step {
+        let t = cfg.timeout_ms;
+        Step::Advance(*self.rng.pick(&[t / 3, t - 1, t + 1, t + 1, 2 * t + 1, 3 * t + 5]))
+    }
+
+    fn settle_or_yield(&mut self) -> Step {
+        if self.rng.chance(3, 4) {
+            Step::Settle
+        } else {
+            Step::Yield(self.rng.range(1, 6) as u32)
+        }
+    }
+
+    /// The output half of the link fails alone: the lane drops its reader, then consumers write
+    /// commands with quiet points in between (the write task only notices a failed flush when the
+    /// next operation arrives).
+    fn output_failure_pattern(&mut self, cfg: &Config, attached: &[usize], steps: &mut Vec<Step>) {
+        steps.push(Step::LaneDropReader);
+        steps.push(self.settle_or_yield());
+        for _ in 0..self.rng.range(0, 3) {
+            let c = *self.rng.pick(attached);
+            let cmd = self.cmd(cfg, c);
+            steps.push(Step::Cmd(c, cmd));
+            steps.push(self.settle_or_yield());
+        }
+    }
+
+    /// Everybody leaves (while, most of the time, a write to a lane that is not reading is pending,
+    /// so that the write task cannot time out), the lane keeps talking, virtual time passes, a new
+    /// consumer attaches and the lane sends events spaced out by less than the timeout.
+    fn idle_period_pattern(&mut self, cfg: &Config, attached: &[usize], y: usize, steps: &mut Vec<Step>) {
+        let t = cfg.timeout_ms;
+        let x = *self.rng.pick(attached);
+        let stall = self.rng.chance(3, 4);
+        if stall {
+            steps.push(Step::LaneStallRead);
+        }
+        for _ in 0..self.rng.range(1, 3) {
+            let cmd = self.cmd(cfg, x);
+            steps.push(Step::Cmd(x, cmd));
+        }
+        steps.push(self.settle_or_yield());
+        let all = self.rng.chance(5, 6);
+        for c in attached {
+            if all || *c != x {
+                steps.push(Step::DropBoth(*c));
+            }
+        }
+        steps.push(Step::Settle);
+        // (two events are needed for the read task to notice that a consumer has gone)
+        for _ in 0..self.rng.range(0, 3) {
+            let ev = self.lane_change(cfg);
+            steps.push(Step::LaneApply(ev));
+            steps.push(Step::Settle);
+        }
+        steps.push(Step::Advance(*self.rng.pick(&[t / 2, t + 1, t + 1, 2 * t + 3])));
+        for _ in 0..self.rng.range(0, 2) {
+            let ev = self.lane_change(cfg);
+            steps.push(Step::LaneApply(ev));
+            steps.push(Step::Settle);
+        }
+        steps.push(Step::Attach(y));
+        steps.push(self.settle_or_yield());
+        for _ in 0..self.rng.range(1, 4) {
+            let ev = self.lane_change(cfg);
+            steps.push(Step::LaneApply(ev));
+            steps.push(match self.rng.below(3) {
+                0 => Step::Settle,
+                1 => Step::Advance(t / 4 + 1),
+                _ => Step::Advance(t / 2 + 1),
+            });
+        }
+        if self.rng.chance(1, 3) {
+            steps.push(Step::CloseWriter(y));
+        }
+        if stall && self.rng.bool() {
+            steps.push(Step::LaneUnstallRead);
+        }
+        if self.rng.bool() {
+            steps.push(Step::Advance(2 * t + 3));
+        }
+        let ev = self.lane_change(cfg);
+        steps.push(Step::LaneApply(ev));
+        steps.push(Step::Settle);
     }
 
     fn cmd(&mut self, cfg: &Config, c: usize) -> Cmd {
@@ -329,6 +450,34 @@ impl<'a> Gen<'a> {
                 ai += 1;
                 continue;
             }
+            if cfg.faults {
+                if ai < attach_at.len() && !attached.is_empty() && pair != Some(ai) && self.rng.chance(1, 8) {
+                    let y = attach_at[ai].1;
+                    if pair == Some(ai.wrapping_sub(1)) {
+                        pair = None;
+                    }
+                    let before = steps.len();
+                    self.idle_period_pattern(cfg, &attached, y, &mut steps);
+                    i += steps.len() - before;
+                    attached.push(y);
+                    ai += 1;
+                    continue;
+                }
+                if self.rng.chance(1, 7) {
+                    let before = steps.len();
+                    match self.rng.below(12) {
+                        0..=6 => {
+                            let adv = self.advance(cfg);
+                            steps.push(adv);
+                        }
+                        7..=9 if !attached.is_empty() => self.output_failure_pattern(cfg, &attached, &mut steps),
+                        10 => steps.push(Step::LaneDropReader),
+                        _ => steps.push(Step::LaneCloseWriter),
+                    }
+                    i += steps.len() - before;
+                    continue;
+                }
+            }
             let c = self.rng.usize_below(n);
             let r = self.rng.below(100);
             match r {
@@ -430,6 +579,8 @@ pub fn grid_case(idx: u64) -> (Config, Vec<Step>, JoinPhase) {
         end: EndKind::LaneUnlinked,
         clearer: None,
         lane_bulk: false,
+        timeout_ms: LONG_TIMEOUT_MS,
+        faults: false,
     };
     let mut lane_n = 1u64;
     let mut change = |steps: &mut Vec<Step>| {
@@ -577,6 +728,190 @@ pub fn directed_case(idx: u64) -> (Config, Vec<Step>, &'static str) {
         end: EndKind::LaneUnlinked,
         clearer: None,
         lane_bulk: false,
+        timeout_ms: LONG_TIMEOUT_MS,
+        faults: false,
     };
     (cfg, s, DIRECTED_SCENARIOS[scenario])
+}
+
+// ------------------------------------------------------------------------------------------------
+// Directed fault scenarios: one half of the link fails alone, and inactivity periods longer than the
+// runtime's `empty_timeout` while its write task is parked on a pending write.
+
+pub const FAULT_SCENARIOS: [&str; 6] = [
+    "output-fails-then-commands",
+    "input-closes-output-open",
+    "late-consumer-after-idle-period-write-pending",
+    "late-consumer-after-idle-period-sync-answered-at-once",
+    "late-consumer-after-idle-period-then-its-writer-closes",
+    "everybody-leaves-runtime-times-out",
+];
+pub const FAULT_REPEATS: u64 = 3;
+pub const FAULT_CASES: u64 = 2 * 6 * 4 * 4 * FAULT_REPEATS;
+
+pub fn fault_case(idx: u64) -> (Config, Vec<Step>, &'static str) {
+    let mut i = idx;
+    let mut take = |n: u64| {
+        let r = i % n;
+        i /= n;
+        r
+    };
+    let kind = if take(2) == 0 { LaneKind::Value } else { LaneKind::Map };
+    let scenario = take(6) as usize;
+    let oa = take(4);
+    let ob = take(4);
+    let rep = take(FAULT_REPEATS);
+    let t: u64 = 100;
+    let init = match kind {
+        LaneKind::Value => St::V(0),
+        LaneKind::Map => St::M((0..2).map(|j| (lane_key(j), 1000 + j)).collect()),
+    };
+    let mut lane_n = 1u64;
+    let mut change = |steps: &mut Vec<Step>| {
+        let ev = match kind {
+            LaneKind::Value => Ev::Set(lane_n),
+            LaneKind::Map => Ev::Upd(lane_key(3 + lane_n % 2), lane_n),
+        };
+        lane_n += 1;
+        steps.push(Step::LaneApply(ev));
+    };
+    let mut cmd_n = [0u64; 2];
+    let mut cmd = |c: usize| {
+        let n = cmd_n[c];
+        cmd_n[c] += 1;
+        let v = ((c as u64 + 1) << 32) | n;
+        match kind {
+            LaneKind::Value => Cmd::Set(v),
+            LaneKind::Map => Cmd::Upd(consumer_key(c, n % 2), v),
+        }
+    };
+    let cons = |o: u64| ConsCfg { sync: o & 1 == 1, keep: o & 2 == 2, cap_note: 4096, cap_cmd: 4096, pace: FAST };
+    let mut s = vec![];
+    // (a socket of 4 bytes: a single request frame does not fit, a write to a lane that is not reading
+    // stays pending)
+    let mut cap_sock_out = 4;
+    match scenario {
+        0 => {
+            cap_sock_out = 4096;
+            s.push(Step::Attach(0));
+            s.push(Step::Attach(1));
+            s.push(Step::Settle);
+            if rep >= 1 {
+                change(&mut s);
+                s.push(Step::Settle);
+            }
+            s.push(Step::LaneDropReader);
+            s.push(Step::Settle);
+            // the input half stays healthy: events keep flowing
+            change(&mut s);
+            s.push(Step::Settle);
+            s.push(Step::Cmd(0, cmd(0)));
+            s.push(Step::Settle);
+            s.push(Step::Cmd(if rep == 2 { 1 } else { 0 }, cmd(if rep == 2 { 1 } else { 0 })));
+            s.push(Step::Settle);
+            change(&mut s);
+            s.push(Step::Settle);
+        }
+        1 => {
+            cap_sock_out = 4096;
+            s.push(Step::Attach(0));
+            s.push(Step::Attach(1));
+            s.push(Step::Settle);
+            change(&mut s);
+            s.push(Step::Settle);
+            if rep == 1 {
+                s.push(Step::LaneStallRead);
+            }
+            s.push(Step::Cmd(0, cmd(0)));
+            s.push(Step::LaneCloseWriter);
+            s.push(Step::Settle);
+            if rep == 2 {
+                s.push(Step::Cmd(1, cmd(1)));
+                s.push(Step::Settle);
+            }
+        }
+        2 | 3 | 4 => {
+            s.push(Step::Attach(0));
+            s.push(Step::Settle);
+            s.push(Step::LaneStallRead);
+            s.push(Step::Cmd(0, cmd(0)));
+            if rep >= 1 {
+                s.push(Step::Cmd(0, cmd(0)));
+            }
+            s.push(Step::Settle);
+            s.push(Step::DropBoth(0));
+            s.push(Step::Settle);
+            // the first event makes the read task notice that the consumer has gone, the second
+            // completes its flush-with-next-event wait: the empty timeout starts
+            change(&mut s);
+            s.push(Step::Settle);
+            change(&mut s);
+            s.push(Step::Settle);
+            // the read task votes to stop; the write task is parked on its pending write
+            s.push(Step::Advance(t + 10));
+            // a notification while the vote is cast
+            change(&mut s);
+            s.push(Step::Settle);
+            s.push(Step::Attach(1));
+            s.push(Step::Settle);
+            if scenario == 3 {
+                // the lane reads again: the new consumer's sync request is answered at once
+                s.push(Step::LaneUnstallRead);
+                s.push(Step::Settle);
+            }
+            for _ in 0..3 {
+                change(&mut s);
+                s.push(Step::Advance(t / 4));
+            }
+            if scenario == 4 {
+                // the new consumer only listens from now on; the lane reads again: the write task
+                // completes its write and finds nobody writing
+                s.push(Step::CloseWriter(1));
+                s.push(Step::LaneUnstallRead);
+                s.push(Step::Settle);
+            }
+            s.push(Step::Advance(2 * t));
+            change(&mut s);
+            s.push(Step::Settle);
+            if rep == 2 {
+                s.push(Step::Advance(2 * t));
+                change(&mut s);
+                s.push(Step::Settle);
+            }
+        }
+        _ => {
+            cap_sock_out = 4096;
+            s.push(Step::Attach(0));
+            s.push(Step::Settle);
+            change(&mut s);
+            s.push(Step::Settle);
+            s.push(Step::DropBoth(0));
+            s.push(Step::Settle);
+            change(&mut s);
+            s.push(Step::Settle);
+            change(&mut s);
+            s.push(Step::Settle);
+            s.push(Step::Advance(if rep == 0 { t / 2 } else { 3 * t }));
+            s.push(Step::Attach(1));
+            s.push(Step::Settle);
+            change(&mut s);
+            s.push(Step::Settle);
+        }
+    }
+    let cfg = Config {
+        kind,
+        consumers: vec![cons(oa), cons(ob)],
+        cap_sock_out,
+        cap_sock_in: 4096,
+        lane_pace: FAST,
+        att_queue: 8,
+        jitter: 0,
+        init,
+        end: if rep == 1 { EndKind::LaneUnlinked } else { EndKind::Nothing },
+        clearer: None,
+        lane_bulk: false,
+        timeout_ms: t,
+        faults: true,
+    };
+    (cfg, s, FAULT_SCENARIOS[scenario])
 }
